@@ -1136,6 +1136,12 @@ func suiteFields(o *Out, thorough bool, seed int64) {
 		}
 		sufficiencyOracle(o, line, t, obs)
 	}
+	// names in the spellings real data has (camelCase, snake_case, capitals, digits, `$` inside): the reported names are
+	// exactly the identifiers as written, and the result depends on nothing else
+	for _, t := range []string{"unitPrice * 2 + qty", "userID ?? 'none'", "orderLines.itemCount + 1", "$t = unitPrice, $t + qty", "Name + name", "unit_price + unitPrice", "f(unitPrice, userID)", "qty2 + qty",
+		"maxValue ? minValue : 0", "isOK && hasItems", "x1 + X1 + x_1", "typeof unitPrice", "[unitPrice, user_id, userId]", "this.unitPrice + 1", "lenOf ?? len2", "absValue ?? 1", "dateOfBirth.year"} {
+		emit(t)
+	}
 	lex := []string{"a", "b", "$c", ".", "(", ")", "[", "]", ",", "=", "?", ":", "typeof", "+", "f", "...", "'s'", "this"}
 	k := 4
 	if thorough {
@@ -1252,6 +1258,7 @@ func sufficiencyOracle(o *Out, line, text, obs string) {
 		full := map[string]interface{}{
 			"a": map[string]interface{}{"b": map[string]interface{}{"c": 1}, "f": hs[1], "x": 2}, "b": map[string]interface{}{"x": "bx"},
 			"c": 3, "f": hs[1], "g": map[string]interface{}{"h": hs[1]}, "$c": 10, "$d": "d", "extra": 99, "len2": 5,
+			"qty": 3, "orderLines": map[string]interface{}{"itemCount": 2, "item_count": 9}, "unit_price": 10, "user_id": "u1", "Name": "cap", "name": "low",
 		}
 		// entries whose KEY is a dotted path (rows often arrive flat): no formula can name them - an identifier has
 		// no dot - so they are never among the reported top-level names and evaluation may not depend on them
@@ -1261,6 +1268,15 @@ func sufficiencyOracle(o *Out, line, text, obs string) {
 		for _, f := range fields {
 			if strings.Contains(f, ".") {
 				full[f] = "flat:" + f
+			}
+		}
+		// entries whose key is another SPELLING of a name the formula reads (snake_case for camelCase, other letter
+		// case, a plural, a prefix, decorated with underscores or `$`): not reported, so evaluation may not depend on them
+		for k := range keep {
+			for _, tw := range spellingTwins(k) {
+				if _, isField := full[tw]; !keep[tw] && !isField {
+					full[tw] = "twin:" + tw
+				}
 			}
 		}
 		m := map[string]interface{}{}
@@ -1325,7 +1341,10 @@ func suiteBridge(o *Out, thorough bool, seed int64) {
 		for _, t := range []string{"rate(h(7), $seen = 1)", "nofn(h(8))", "s(h(1), h(2))", "m(h(1))", "n(h(1))", "m.k(h(1))", "m.nope(h(1), $a = 2)", "h(1)(h(2))", "(1)(h(3))", "rate(h(1), nofn(h(2)))",
 			"rate(n!.x, h(1))", "rate(h(1), n!.x, h(2))", "arr(h(1))", "p(h(1))", "'lit'(h(1), $b = h(2))", "null(h(1))", "true(h(1))", "[1](h(1))", "rate(v(1, 2), v(3))", "rate(h(1)...)", "rate(h(1), arr...)",
 			"rate(h(h(1)))", "nofn($a = h(1), $a)", "(rate)(h(1))", "this.rate(h(1))", "this.nofn(h(1), h(2))", "rate(h(1)) ?? h(2)", "[h(1), rate(h(2)), h(3)]", "h(rate(h(1)))", "h(1), rate(h(2)), h(3)",
-			"m.h(h(5))", "m.h(rate(h(5)))", "rate(m.h(5), m.h(6))", "rate()", "nofn()", "rate($x = 1), $x", "$f = rate, $f(h(1))", "$f = h, $f($f(1))", "(n ?? rate)(h(1))", "(n ?? h)(h(1))"} {
+			"m.h(h(5))", "m.h(rate(h(5)))", "rate(m.h(5), m.h(6))", "rate()", "nofn()",
+			// the operand of a spread is the LAST argument: evaluated after the arguments in front of it
+			"v(h(1), [h(2)]...)", "v($n = 1, [$n, 2]...)", "v($n = 1, $n = 2, [$n]...)", "v([h(1)]...)", "v(h(1), h(2), [h(3), h(4)]...)", "v(h(1), nofn(h(2))...)", "v(n!.x, [h(1)]...)", "v(h(1), n!.x...)",
+			"v($a = [1], $a...)", "v($a = 1, ($a = [2, 3])...)", "h(h(1), [h(2)]...)", "v(h(1), [h(2)]..., 3)", "[v(h(1), [h(2)]...), v(h(3), [h(4)]...)]", "rate($x = 1), $x", "$f = rate, $f(h(1))", "$f = h, $f($f(1))", "(n ?? rate)(h(1))", "(n ?? h)(h(1))"} {
 			emitEval(o, t, 0, hosts, d, true)
 		}
 		o.Stat("non-function-callees-with-effects")
@@ -1503,6 +1522,14 @@ func suiteNames(o *Out, thorough bool, seed int64) {
 	o.Notes = append(o.Notes, fmt.Sprintf("exhaustive: every dotted path of depth 0..%d over %d roots and a %d-key universe with . and !. at every position, against a nested data map; also each compared with null", depth, len(roots), len(keys)))
 	for _, d := range []string{"-", "O0"} {
 		for _, t := range []string{"a", "a.b", "a.b.c", "a!.b", "this", "this.a", "this.a.b", "len", "len.x", "abs", "a == null", "a === null", "this == null"} {
+			emitEval(o, t, 0, "-", d, true)
+		}
+	}
+	// a name is looked up as it is written: no other spelling of it is tried
+	{
+		d := wmap("unit_price", "Ii:10", "qty", "Ii:3", "user_id", ws("u1"), "USERID", ws("U"), "Name", ws("cap"), "m", wmap("item_count", "Ii:9", "ItemCount", "Ii:8"), "len_", "Ii:1", "_x", "Ii:2", "x_", "Ii:4", "xs", "Ii:5")
+		for _, t := range []string{"unitPrice * 2 + qty", "userId ?? 'none'", "userID ?? 'none'", "name ?? 'none'", "Name", "m.itemCount ?? 0", "m.item_count + m.ItemCount", "x ?? 'none'", "Qty ?? 0", "QTY ?? 0",
+			"this.unitPrice ?? 'none'", "[unitPrice, unit_price, UnitPrice]", "len_ + 1", "typeof unitPrice", "$x = unitPrice, $x ?? qty"} {
 			emitEval(o, t, 0, "-", d, true)
 		}
 	}
@@ -2129,4 +2156,40 @@ func unescapeGo(s string) []byte {
 	s = strings.ReplaceAll(s, "\\n", "\n")
 	s = strings.ReplaceAll(s, "\x00BS", "\\")
 	return []byte(s)
+}
+
+// spellingTwins: other spellings of a name - the kind of key a "helpful" lookup would fall back to
+func spellingTwins(k string) []string {
+	var snake strings.Builder
+	for i, c := range k {
+		if i > 0 && c >= 'A' && c <= 'Z' && (k[i-1] < 'A' || k[i-1] > 'Z') {
+			snake.WriteByte('_')
+		}
+		snake.WriteRune(c)
+	}
+	camel := ""
+	up := false
+	for _, c := range k {
+		if c == '_' {
+			up = true
+			continue
+		}
+		if up {
+			camel += strings.ToUpper(string(c))
+			up = false
+		} else {
+			camel += string(c)
+		}
+	}
+	out := []string{strings.ToLower(snake.String()), snake.String(), camel, strings.ToLower(k), strings.ToUpper(k), strings.Title(k), k + "s", k + "_", "_" + k, "$" + k, k + "$", strings.TrimPrefix(k, "$"), " " + k, k + " "}
+	if len(k) > 1 {
+		out = append(out, k[:len(k)-1], k[1:], strings.ToLower(k[:1])+k[1:])
+	}
+	var res []string
+	for _, x := range out {
+		if x != k && x != "" {
+			res = append(res, x)
+		}
+	}
+	return res
 }
